@@ -217,8 +217,24 @@ def _build_and_check(kind, dep_lines, src, rustflags=None):
         env.pop(k, None)
     if rustflags:
         env["RUSTFLAGS"] = rustflags
-    r = subprocess.run(["cargo", "+nightly", "check", "--offline", "--message-format=json", "-q"], cwd=d, env=env,
-                       stdout=subprocess.PIPE, stderr=subprocess.PIPE, text=True)
+    # rustc's const evaluator has no step limit once long_running_const_eval is allowed (the universe needs that): a change
+    # that makes one of the crate's const fns loop forever must end the check, not hang it.  Cold builds take 25-100 s.
+    limit = int(os.environ.get("QBV_WITNESS_TIMEOUT", "1500"))
+    pr = subprocess.Popen(["cargo", "+nightly", "check", "--offline", "--message-format=json", "-q"], cwd=d, env=env,
+                          stdout=subprocess.PIPE, stderr=subprocess.PIPE, text=True, start_new_session=True)
+    try:
+        out, err = pr.communicate(timeout=limit)
+    except subprocess.TimeoutExpired:
+        import signal
+        os.killpg(pr.pid, signal.SIGKILL)
+        pr.communicate()
+        return [("nontermination", "rustc did not finish const-evaluating the %s witness within %d s: a const fn of the crate under test no longer terminates "
+                 "(or became super-linearly slow) on the witness inputs" % (kind, limit))]
+
+    class _R:
+        pass
+    r = _R()
+    r.stdout, r.stderr, r.returncode = out, err, pr.returncode
     failures, other = [], []
     for line in r.stdout.splitlines():
         try:
